@@ -26,6 +26,7 @@ func init() {
 			"C11.R2 confinement: handler-side interface calls on the data source whose implementations (transitively) write a field that core-loop-reachable code accesses must sit in a request closure, in the start phase (not reachable from the `go` statement that starts the core loop) or after the run-done WaitGroup.Wait",
 			"C11.R2b a handler-side call of a data-source method outside a request closure and outside the start phase has no effect on the source: no implementation stores into a field of an object it did not allocate (table exceptions: Stop, ConfigureMixFraction)",
 			"C11.R2s the receiver of the chan func() calls the received closure synchronously and calls block processing synchronously in the same function",
+			"C11.R2p one production step per consumed block: in the request-channel consumer a call of the data-source method that hands out the block channel (for Lancero and Abaco it also starts the next production step) lies outside the loop, or is dominated by the select arm (or receive) that took a block from that channel",
 			"C11.R3 guard dominance (E6): forward taint from the arguments of request handlers through calls, closures, returns, request-written fields (outside per-channel types), channel messages and client-keyed maps; every index / slice bound / make size / divisor fed by such a value needs 0 <= v and v < len proven from dominating branch conditions, range loops, completed validation loops and derived equal-length invariants, in the function itself or at every place that supplies the value (call sites, closure creation, send sites, field stores, map insertions)",
 			"C11.R4 mortal peer: the hand-off send must be a select arm with an alternative; the active flag is set true only on the success branch of the start call; handlers test the flag before calls that block on per-block goroutines",
 			"C11.R6 lock re-entrancy: no call made while a mutex field is held reaches a Lock of the same mutex of the same object (self-deadlock inside the core loop)",
@@ -52,6 +53,7 @@ func runC11(p *Prog, r *Report) {
 	r.MinInstances["C11.R1"] = 8
 	r.MinInstances["C11.R2"] = 5
 	r.MinInstances["C11.R5"] = 11
+	r.MinInstances["C11.R2p"] = 1
 	r.MinInstances["C11.R3"] = 25
 	r.Notes = append(r.Notes, fmt.Sprintf("anchors: controller=%s request channel field=%s result channel field=%s queueing function=%s; %d request closures from %d call sites; %d RPC handlers",
 		rv.Ctl.Obj().Name(), rv.ReqField, rv.ResField, FuncName(rv.Queue), len(rv.Closures), len(rv.CallSites), len(rv.Handlers)))
@@ -301,6 +303,62 @@ func (c *c11ctx) ruleR2() {
 	r.Check(reqCalls >= 1 && reqGos == 0 && procCalls >= 1 && procGos == 0, "C11.R2s", FuncName(core), p.Pos(core.Pos()),
 		fmt.Sprintf("requests and %s are both called synchronously in the consumer of the request channel", blockParamMethod),
 		fmt.Sprintf("the request-channel consumer must run requests and block processing synchronously in one goroutine (sync request calls=%d, go request=%d, sync processing calls=%d, go processing=%d)", reqCalls, reqGos, procCalls, procGos))
+	// R2p: one production step per consumed block.  For some sources asking for the block
+	// channel is what starts the next production step (it launches a goroutine that takes one
+	// raw buffer, applies pending mix requests and distributes the data), so inside the loop the
+	// consumer may ask only after it received a block, never on a pass that served a request.
+	Instrs(core, func(in ssa.Instruction) {
+		cc := CallOf(in)
+		if cc == nil || !cc.IsInvoke() || cc.Value.Type() != dsIface || len(cc.Args) != 0 {
+			return
+		}
+		sig := cc.Method.Type().(*types.Signature)
+		if sig.Results().Len() != 1 {
+			return
+		}
+		cht, isChan := sig.Results().At(0).Type().Underlying().(*types.Chan)
+		if !isChan {
+			return
+		}
+		key := fmt.Sprintf("%s: %s is asked for the next block only after a block was received", FuncName(core), cc.Method.Name())
+		b := in.Block()
+		inCycle := func(x *ssa.BasicBlock) bool {
+			for _, sc := range x.Succs {
+				if sc == x || BlockReaches(sc, x) {
+					return true
+				}
+			}
+			return false
+		}
+		if !inCycle(b) {
+			r.OK("C11.R2p", key+" (first step)", p.InstrPos(in), "called once, outside the loop")
+			return
+		}
+		after := false
+		Instrs(core, func(x ssa.Instruction) {
+			switch y := x.(type) {
+			case *ssa.Select:
+				arms := SelectArms(y)
+				for k, st := range y.States {
+					if st.Dir == types.RecvOnly && types.Identical(st.Chan.Type().Underlying().(*types.Chan).Elem(), cht.Elem()) {
+						if arm := arms[k]; arm != nil && (arm == b || arm.Dominates(b)) {
+							after = true
+						}
+					}
+				}
+			case *ssa.UnOp:
+				if y.Op == token.ARROW {
+					if ct, ok := y.X.Type().Underlying().(*types.Chan); ok && types.Identical(ct.Elem(), cht.Elem()) && InstrDominates(y, in) {
+						if inCycle(y.Block()) {
+							after = true
+						}
+					}
+				}
+			}
+		})
+		r.Check(after, "C11.R2p", key, p.InstrPos(in), "inside the loop the call is dominated by the arm that received a block",
+			"inside the loop "+cc.Method.Name()+" is called on passes that did not receive a block (for instance after serving a control request): for sources where this call starts a production step, extra steps then run concurrently with each other (a mix request is applied while another step distributes data) and each of them closes the block channel when the source stops (close of closed channel)")
+	})
 	// exactly one go statement starts the consumer
 	var starter *ssa.Go
 	nstart := 0
